@@ -47,13 +47,22 @@ size_t strlen (const char *s)
   return 0;
 }
 
-/* strcspn / strspn: exact for the first XV_SPAN_SCAN characters (a constant
-   loop); beyond that the result is any position up to the ghost length whose
-   character is a stop character or the NUL - an over-approximation that only
-   matters for strings longer than XV_SPAN_SCAN, which no caller accepts.  */
+/* strcspn / strspn.
+   For a registered caller string the result r is chosen nondeterministically
+   under the function's contract:
+     r <= remaining length;
+     r == remaining length, or s[r] is a stop character;
+     no stop character (and no NUL) before r - a universal statement, which
+     is instantiated at the harness's arbitrary-but-fixed indices
+     xv_ghost_idx[] (absolute positions in the registered string).  Every
+     obligation that needs this fact is itself stated at one of those
+     indices.
+   For other strings (short literals and library-owned buffers) the string is
+   scanned, at most XV_SPAN_SCAN characters.  */
 #ifndef XV_SPAN_SCAN
-#define XV_SPAN_SCAN 512
+#define XV_SPAN_SCAN 64
 #endif
+size_t xv_ghost_idx[XV_NGHOST];
 
 static _Bool xv_in_set (char c, const char *set)
 {
@@ -70,18 +79,28 @@ static _Bool xv_in_set (char c, const char *set)
 static size_t xv_span (const char *s, const char *set, _Bool want_member)
 {
   size_t len;
-  _Bool reg = xv_str_lookup (s, &len);
+  if (xv_str_lookup (s, &len))
+    {
+      size_t r = nondet_size ();
+      __CPROVER_assume (r <= len);
+      __CPROVER_assume (r == len || xv_in_set (s[r], set) != want_member);
+      size_t base = 0;
+      for (int i = 0; i < XV_MAXSTR; i++)
+        if (i < xv_nstrs && __CPROVER_same_object (s, xv_strs[i].p))
+          base = (size_t) (s - xv_strs[i].p);
+      for (int g = 0; g < XV_NGHOST; g++)
+        if (xv_ghost_idx[g] >= base && xv_ghost_idx[g] - base < r)
+          __CPROVER_assume (xv_in_set (s[xv_ghost_idx[g] - base], set) == want_member
+                            && s[xv_ghost_idx[g] - base] != 0);
+      return r;
+    }
   for (size_t i = 0; i < XV_SPAN_SCAN; i++)   /* XV_UNWIND SPAN */
     {
-      if (reg && i >= len) return len;
       if (s[i] == 0) return i;
       if (xv_in_set (s[i], set) != want_member) return i;
     }
-  __CPROVER_assert (reg, "unwinding assertion: strcspn/strspn on an unregistered string longer than the scan bound");
-  size_t r = nondet_size ();
-  __CPROVER_assume (r >= XV_SPAN_SCAN && r <= len);
-  __CPROVER_assume (r == len || s[r] == 0 || xv_in_set (s[r], set) != want_member);
-  return r;
+  __CPROVER_assert (0, "unwinding assertion: strcspn/strspn on an unregistered string longer than the scan bound");
+  return 0;
 }
 
 size_t strcspn (const char *s, const char *reject) { return xv_span (s, reject, 0); }
